@@ -123,10 +123,13 @@ impl Object for Font {
             })
         };
 
-        let encoding = dict.remove("Encoding").map(|p| Object::from_primitive(p, resolve)).transpose()?;
+        let encoding = match dict.remove("Encoding") {
+            Some(p) => from_entry(p, resolve)?,
+            None => None
+        };
 
         let to_unicode = match dict.remove("ToUnicode") {
-            Some(p) => Some(Object::from_primitive(p, resolve)?),
+            Some(p) => from_entry(p, resolve)?,
             None => None
         };
         let _other = dict.clone();
